@@ -242,6 +242,9 @@ func julianDayAsNumberLit(t time.Time) *sql.NumberLit {
 }
 
 func julianDay(t time.Time) float64 {
+	// SQLite's 'now' is UTC, so the replacement must not depend on the time
+	// zone this node happens to run in.
+	t = t.UTC()
 	year := t.Year()
 	month := int(t.Month())
 	day := t.Day()
